@@ -264,13 +264,26 @@ Section PASSES.
 
   (* nodes created with make_node (leaves: Id, Constant, …) never pass through the optimizer; every
      node built by build_match does, after its children *)
+  (* Dot_Fun_Array builds the call / index node of `lhs.f(..)` / `lhs.a[..]` with the (already optimised) left-hand side as its
+     first child and re-parents afterwards: that node starts where the optimised left-hand side starts *)
+  Definition dot_children (k : kind) (ch ch0 : list ast) : list ast :=
+    match k, ch, ch0 with
+    | KDot_Access, [rl; rr], [ol; Node rk rcls rtext rloc rc rch] =>
+        if (kind_eqb rk KFun_Call || kind_eqb rk KArray_Call)
+           && Z.eqb (l_line (a_loc rr)) (l_line (a_loc rl)) && Z.eqb (l_col (a_loc rr)) (l_col (a_loc rl))
+        then [ol; Node rk rcls rtext (mkloc (l_line (a_loc ol)) (l_col (a_loc ol)) (l_eline rloc) (l_ecol rloc)) rc rch]
+        else ch0
+    | _, _, _ => ch0
+    end.
+
   Fixpoint optimize_tree (n : ast) : ast :=
     let 'Node k cls text l c ch := n in
     match ch, k with
     | [], KId | [], KConstant => n
     | _, _ =>
         (* build_match: a node starts where its first child (already optimised) starts and ends at the parser position *)
-        let ch' := map optimize_tree ch in
+        let ch0 := map optimize_tree ch in
+        let ch' := dot_children k ch ch0 in
         let l' := match ch, ch' with
                   | raw_first :: _, first :: _ =>
                       (* only where the rule held for the unoptimised node (Dot_Fun_Array re-parents nodes after they were built) *)
